@@ -61,7 +61,7 @@ def _nat_or_inf(x, shift=0.0):
     return 'bad'
 
 
-def _observe(L, K, ops, first):
+def _observe(L, K, ops, first, key_order=None):
     """calc_concepts_measures for `ops`, then read every concept of the CURRENT lattice."""
     from fcapy.lattice import concept_measures as cms
     for op, alias in ops:
@@ -94,8 +94,12 @@ def _observe(L, K, ops, first):
     # concepts read from JSON also carry 'Supp', 'Context_Hash', 'Monotone' in their measures dict: those
     # arrays must be as long as the others; only the four stability keys are reported by name
     match = match and all(len(v) == len(concepts) for v in md.values())
-    return {'concepts': concepts, 'keys': [KEY_IDS[k] for k in md if k in KEY_IDS],
-            'lens': [int(len(v)) for k, v in md.items() if k in KEY_IDS], 'match': bool(match)}
+    names = [k for k in md if k in KEY_IDS]
+    if key_order is not None:
+        # a lattice read back from a file lists its keys in the file's order: reported in the original's order
+        names = [k for k in key_order if k in names] + [k for k in names if k not in key_order]
+    return {'concepts': concepts, 'keys': [KEY_IDS[k] for k in names],
+            'lens': [int(len(md[k])) for k in names], 'match': bool(match)}
 
 
 def _find(L, ext):
@@ -243,6 +247,30 @@ def run_impl(case):
                     for m in ('stability_bounds', 'log_stability_lbound', 'stability'):
                         D.calc_concepts_measures(m, Kd)
                     D.measures
+                elif kind == 'json_back':
+                    # the lattice written with its measures and read back is judged WITHOUT recomputing: every
+                    # stored value (0 and 0.0 included) must have survived, for every concept; the same for the
+                    # per-concept to_dict / from_dict and write_json / read_json routes
+                    from fcapy.lattice.formal_concept import FormalConcept
+                    if len(L) < 3:          # write_json refuses such lattices: a plain read instead
+                        snaps.append(dict(_observe(L, K, [], False), complete=complete, fresh=fresh))
+                        k += 1
+                        continue
+                    D = ConceptLattice.read_json(json_data=L.write_json(K.object_names, K.attribute_names))
+                    sn = _observe(D, K, [], False, key_order=list(L.measures))
+                    ok = sn['match'] and len(D) == len(L)
+                    for c in L:
+                        for c2 in (FormalConcept.from_dict(c.to_dict(K.object_names, K.attribute_names)),
+                                   FormalConcept.read_json(json_data=c.write_json(K.object_names, K.attribute_names))):
+                            for key, v in c.measures.items():
+                                ok = ok and key in c2.measures and c2.measures[key] == v and \
+                                    type(c2.measures[key]) in (type(v), float, int)
+                            ok = ok and sorted(c2.extent_i) == sorted(c.extent_i) and \
+                                sorted(c2.intent_i) == sorted(c.intent_i)
+                    sn['match'] = bool(ok)
+                    snaps.append(dict(sn, complete=complete, fresh=fresh))
+                    k += 1
+                    continue
                 elif kind == 'rebuild':     # a second lattice over the SAME concept objects, some left out
                     L = ConceptLattice([c for c in L if sorted(c.extent_i) not in [sorted(e) for e in step[1]]])
                     complete, fresh = (not step[1]), False
@@ -292,6 +320,7 @@ def extra_evidence(cases, outs):
     """Largest dyadic exponent among the implementation's values (every value must be k / 2^e), the
     largest extent and the number of concepts whose measures were compared."""
     max_exp, max_ext, n_concepts, non_dyadic, n_snaps = 0, 0, 0, 0, 0
+    zeros = {'LStab': 0, 'UStab': 0, 'Stab': 0, 'log_stability_lbound': 0}
     for o in outs:
         if not (isinstance(o, (list, tuple)) and o and o[0] == 'ok'):
             continue
@@ -300,13 +329,18 @@ def extra_evidence(cases, outs):
             for k in sn['concepts']:
                 n_concepts += 1
                 max_ext = max(max_ext, len(k['extent']))
+                zeros['LStab'] += k['lstab'][0] == 0
+                zeros['UStab'] += k['ustab'][0] == 0
+                zeros['Stab'] += k['stab'][0] == 0
+                zeros['log_stability_lbound'] += isinstance(k['logm'], int) and 2 ** k['logm'] == o[1]['n_bin']
                 for key in ('stab', 'lstab', 'ustab'):
                     den = k[key][1]
                     if den & (den - 1):
                         non_dyadic += 1
                     max_exp = max(max_exp, den.bit_length() - 1)
     return {'largest_dyadic_exponent': max_exp, 'largest_extent': max_ext, 'observations': n_snaps,
-            'concepts_compared': n_concepts, 'non_dyadic_values': non_dyadic}
+            'concepts_compared': n_concepts, 'non_dyadic_values': non_dyadic,
+            'zero_valued_measures_seen': {k: int(v) for k, v in zeros.items()}}
 
 
 def nontrivial(case):
@@ -397,7 +431,11 @@ def _mk(rng, t, kind, backend=None, algo=None, plain=False):
         c['history'] = [['derive', how, prune]]
         if rng.random() < 0.4:
             c['history'] += [['calc'], ['derive', rng.choice(['T', 'deepcopy', 'json']), prune]]
-    c['ops_list'] += [([] if (st[0].endswith('_only') or st[0] in ('read', 'derive')) else _ops(rng))
+    # write the lattice with its measures, read it back, judge the copy as it is (write_json needs >= 3 concepts;
+    # only when every measure is up to date, i.e. after a calc)
+    if len(exts) >= 3 and not c['build'].startswith('latviz') and rng.random() < 0.4:
+        c['history'] = c['history'] + [['json_back']]
+    c['ops_list'] += [([] if (st[0].endswith('_only') or st[0] in ('read', 'derive', 'json_back')) else _ops(rng))
                       for st in c['history']]
     return c
 
